@@ -353,10 +353,36 @@ def mkint(t):
 class SymInt:
     """Integer proxy over a z3 Int term."""
 
-    __slots__ = ("t",)
+    __slots__ = ("t", "lowzero")
 
-    def __init__(self, t):
+    def __init__(self, t, lowzero: int = 0):
         self.t = t
+        self.lowzero = lowzero  # number of low bits known to be zero (set by <<)
+
+    def __lshift__(self, k):
+        if not isinstance(k, int) or k < 0:
+            raise Unsupported("shift by non-constant")
+        r = mkint(z3.simplify(self.t * (1 << k)))
+        if isinstance(r, SymInt):
+            r.lowzero = self.lowzero + k
+        return r
+
+    def __or__(self, o):
+        x = _i(o)
+        if x is None:
+            return NotImplemented
+        e = engine()
+        # (v << k) | w  ==  (v << k) + w   when 0 <= w < 2**k
+        if self.lowzero and e.implied(z3.And(x >= 0, x < (1 << self.lowzero)) if not isinstance(x, int) else z3.BoolVal(0 <= x < (1 << self.lowzero))):
+            if not e.implied(self.t >= 0):
+                raise Unsupported("| on possibly negative value")
+            return mkint(z3.simplify(self.t + x))
+        raise Unsupported("symbolic | without disjoint-bits proof")
+
+    def __ror__(self, o):
+        if isinstance(o, int) and o == 0:
+            return self
+        raise Unsupported("int | symbolic")
 
     # arithmetic
     def __add__(self, o):
@@ -858,7 +884,22 @@ class SymStr:
         return mkstr(out)
 
     def encode(self, *a, **k):
-        raise Unsupported("SymStr.encode")
+        """UTF-8 bytes as a list of ints / SymInts.
+
+        ASCII characters encode to themselves; for a non-ASCII character only the
+        lead byte is modelled faithfully enough for range tests (it is >= 0xC2),
+        continuation bytes are reported as 0x80.
+        """
+        e = engine()
+        out = []
+        for c in self.ch:
+            if isinstance(c, int):
+                out.extend(chr(c).encode("utf-8", "surrogatepass"))
+            elif e.branch(c < 128):
+                out.append(SymInt(c))
+            else:
+                out.extend([0xC2, 0x80])
+        return out
 
     def __getattr__(self, name):
         raise Unsupported(f"SymStr.{name}")
@@ -885,5 +926,56 @@ def sym_ord(s):
 
 def sym_chr(i):
     if isinstance(i, SymInt):
+        if not engine().branch(z3.And(i.t >= 0, i.t <= MAXCP)):
+            raise ValueError("chr() arg not in range(0x110000)")
         return SymStr((i.t,))
     return chr(i)
+
+
+def sym_int(x=0, base=10):
+    """int() that also accepts SymStr (decimal, or hexadecimal for base 16)."""
+    if isinstance(x, SymInt):
+        return x
+    if not isinstance(x, SymStr):
+        return int(x, base) if isinstance(x, (str, bytes)) else int(x)
+    if base == 10:
+        return x.__int__()
+    if base != 16:
+        raise Unsupported(f"int(SymStr, {base})")
+    e = engine()
+    if not x.ch:
+        raise ValueError("invalid literal for int() with base 16: ''")
+    HEX = ((0x30, 0x39), (0x41, 0x46), (0x61, 0x66))
+
+    def is_hex(c):
+        return e.branch(in_intervals(c, HEX))
+
+    def digit(c):
+        if isinstance(c, int):
+            return int(chr(c), 16)
+        return z3.If(c <= 0x39, c - 0x30, z3.If(c <= 0x46, c - 0x37, c - 0x57))
+
+    def fin(t):
+        return mkint(z3.simplify(t)) if not isinstance(t, int) else t
+
+    flags = [is_hex(c) for c in x.ch]
+    if all(flags):
+        total = 0
+        for c in x.ch:
+            total = total * 16 + digit(c)
+        return fin(total)
+    # CPython's int() also accepts surrounding whitespace, a sign, "_" between digits, "0x"
+    if len(x.ch) == 1:
+        raise ValueError("invalid literal for int() with base 16")
+    if len(x.ch) == 2:
+        a, b = x.ch
+        if flags[1] and not flags[0]:
+            if e.branch(in_set(a, SPACE_CPS)) or e.branch(_ceq(a, 0x2B)):
+                return fin(digit(b))
+            if e.branch(_ceq(a, 0x2D)):
+                return fin(-digit(b))
+        elif flags[0] and not flags[1]:
+            if e.branch(in_set(b, SPACE_CPS)):
+                return fin(digit(a))
+        raise ValueError("invalid literal for int() with base 16")
+    raise Unsupported("int(s, 16): input beyond plain hex digits (sign/space/underscore/0x forms not modelled for len > 2)")
